@@ -105,6 +105,24 @@ def histories(fmt, data, rng, ctx):
         yield "retag", fobj2.getvalue()
     except Exception:
         pass
+    if fmt.kind == "FLAC":
+        # a FLAC file with an ID3v2 tag in front (and an ID3v1 block behind): FLAC loads it, keeps the tags on save and
+        # removes them with deleteid3=True - all of them states reached through the FLAC type
+        from mutagen.id3 import ID3, TIT2
+        for n in ([40] if ctx.quick else [1, 40, 5000]):
+            f3 = io.BytesIO(data)
+            try:
+                t = ID3(); t.add(TIT2(encoding=3, text=["i" * n])); t.save(f3, v1=2)
+                yield "id3-prefixed%d" % n, f3.getvalue()
+                obj, fobj3 = F.load(fmt, f3.getvalue(), "x.flac")
+                F.put(fmt, obj, 2, "with id3 in front")
+                F.save(obj, fobj3)
+                yield "id3-prefixed%d+save" % n, fobj3.getvalue()
+                fobj3.seek(0)
+                obj.save(fobj3, deleteid3=True)
+                yield "id3-prefixed%d+deleteid3" % n, fobj3.getvalue()
+            except MutagenError:
+                ctx.hist["history:id3-prefixed-raised-MutagenError"] += 1
 
 
 def run(ctx):
@@ -119,6 +137,9 @@ def run(ctx):
             data = F.sample_bytes(ctx.repo, s)
             for label, st in histories(fmt, data, rng, ctx):
                 names = name_variants(fmt, rng, data)
+                if label.startswith("id3-prefixed"):
+                    # the magic bytes are no longer at offset 0: nameless streams are outside the property for this state
+                    names = [n for n in names if n]
                 if ctx.quick and len(names) > 4:
                     names = rng.sample(names, 4)
                 for nm in names:
